@@ -77,6 +77,12 @@ def perturbations(d, rng, quick):
         e = cp()
         e[w] = d[w] - 5.0
         out.append(("waste", w, e, "ge"))
+    # ... and down to a fraction of a percent / to zero (values below 1 % are legal percentages, not fractions)
+    for w in (rng.sample(ws, min(len(ws), 2)) if quick else ws):
+        for tgt in (0.5, 0.0):
+            e = cp()
+            e[w] = tgt
+            out.append(("waste", f"{w}->{tgt}", e, "ge"))
     # charge up (to_humans only)
     if d["ty"] == "to_humans" and (d["add_sf"] or d["add_cr"]):
         for key in ("feed_charge", "biofuel_charge"):
